@@ -46,6 +46,11 @@ def instances(tier, rng):
                 {"wt": "float", "num": 1, "den": 2},
                 {"wt": "float", "num": 1, "den": 10, "opt": {"optimize_with_greedy": False}},
                 {"wt": "float", "float_data": False},                   # integer data, float weights requested
+                # integer weights requested on data that is (partly) non-integral: whatever is reported solved must
+                # still explain the data as given, not a truncation of it
+                {"wt": "int", "num": 1, "den": 2, "opt": {"optimize_with_greedy": False}},
+                {"wt": "int", "num": 3, "den": 2, "mode": "node"},
+                {"wt": "int", "num": 1, "den": 2, "ign": [list(rng.choice(u["edges"]))]},
             ]
             if cls == "kFlowDecomp":
                 routes.append({"sws": sorted(set(u["pweights"])) + list(u["pweights"])})   # given-weights model
@@ -58,7 +63,7 @@ def instances(tier, rng):
             es = C.route_edges(p)
             routes.append({"cons": [es[:2]]})
             routes.append({"cons": [es[-1:]], "opt": {"optimize_with_greedy": False}})
-            for cfg in (routes if not quick else routes[:5] + rng.sample(routes[5:], 3)):
+            for cfg in (routes if not quick else routes[:5] + rng.sample(routes[5:], 4)):
                 r = C.base(u, cls, cfg.get("mode", "edge"))
                 r["wt"] = "int"
                 if cls == "kFlowDecomp":
